@@ -8,23 +8,37 @@ Import ListNotations.
 Local Arguments Nat.ltb : simpl never.
 Local Arguments Nat.eqb : simpl never.
 
-Inductive reachable_ns (t n c : nat) : state -> Prop :=
-| RN_init : reachable_ns t n c (init n c)
-| RN_step s l s' : reachable_ns t n c s -> l <> E_stop -> step t s l = Some s' -> reachable_ns t n c s'.
+(* runs without stop(); with h = true moreover the source is honest: it answers None only
+   when it has nothing left *)
+Inductive reachable_ns (h : bool) (t n c : nat) : state -> Prop :=
+| RN_init : reachable_ns h t n c (init n c)
+| RN_step s l s' : reachable_ns h t n c s -> l <> E_stop ->
+                   (h = true -> l = E_src_none -> src_left s = 0) ->
+                   step t s l = Some s' -> reachable_ns h t n c s'.
 
-Lemma reachable_ns_reachable t n c s : reachable_ns t n c s -> reachable t n c s.
+Lemma reachable_ns_reachable h t n c s : reachable_ns h t n c s -> reachable t n c s.
 Proof. induction 1; [constructor|eapply R_step; eauto]. Qed.
 
-Lemma run_reachable_ns t n c ls s :
-  run t (init n c) ls = Some s -> ~ In E_stop ls -> reachable_ns t n c s.
+Fixpoint honest (t : nat) (s : state) (ls : list label) : bool :=
+  match ls with
+  | [] => true
+  | l :: r => (match l with E_src_none => src_left s =? 0 | _ => true end)
+              && match step t s l with Some s' => honest t s' r | None => true end
+  end.
+
+Lemma run_reachable_ns h t n c ls : forall s0 s,
+  reachable_ns h t n c s0 -> run t s0 ls = Some s -> ~ In E_stop ls -> (h = true -> honest t s0 ls = true) ->
+  reachable_ns h t n c s.
 Proof.
-  revert s. induction ls as [|l ls IH] using rev_ind; intros s H N.
-  - cbn in H. injection H as <-. constructor.
-  - rewrite run_app in H. destruct (run t (init n c) ls) as [s0|] eqn:E; [|discriminate].
-    cbn in H. destruct (step t s0 l) eqn:E2; [|discriminate]. injection H as <-.
-    eapply RN_step; [apply IH; [reflexivity|]| |exact E2].
-    + intros I. apply N. apply in_or_app. now left.
-    + intros ->. apply N. apply in_or_app. right. now left.
+  induction ls as [|l ls IH]; intros s0 s R H N Ho.
+  - cbn in H. injection H as <-. exact R.
+  - cbn in H. destruct (step t s0 l) as [s1|] eqn:E; [|discriminate].
+    apply (IH s1 s); auto.
+    + eapply RN_step; eauto.
+      * intros ->. apply N. now left.
+      * intros Hh ->. specialize (Ho Hh). cbn in Ho. apply andb_prop in Ho. destruct Ho as [Ho _]. now apply Nat.eqb_eq.
+    + intros I. apply N. now right.
+    + intros Hh. specialize (Ho Hh). cbn [honest] in Ho. rewrite E in Ho. apply andb_prop in Ho. tauto.
 Qed.
 
 Definition is_last (t : nat) (e : ev) : bool := match e with Ev false _ k => S k =? t | _ => false end.
@@ -56,7 +70,12 @@ Ltac pkinv :=
          | H : pk ?p = 4 |- _ => let X := fresh in pose proof (pk_inv p) as X; rewrite H in X; clear H
          end.
 
-Record Ns (t : nat) (s : state) : Prop := {
+Definition psn (p : ppc) : bool := match p with P_src_none => true | _ => false end.
+Lemma psn_pnotify p : psn (pnotify p) = psn p.
+Proof. destruct p as [| | | | | |j [|]|[|]| | |]; reflexivity. Qed.
+
+Record Ns (h : bool) (t : nat) (s : state) : Prop := {
+  ns_h : h = true -> pk (prod s) = 2 \/ psn (prod s) = true -> src_left s = 0;
   ns_a : pstate s <> St_running -> mainpc s <> M_new -> (pk (prod s) = 2 /\ unfinished s = 0) \/ pk (prod s) = 3;
   ns_b : prod_cancel s = false;
   ns_b' : pk (prod s) <> 4;
@@ -67,8 +86,8 @@ Record Ns (t : nat) (s : state) : Prop := {
 }.
 
 Ltac nsclause :=
-  cbn; intros; rewrite ?cnt_last_cons, ?pheld_pnotify, ?pk_pnotify in *; cbn [b2n is_last pheld pk] in *; hyps;
-  try match goal with H : prod _ = _ |- _ => rewrite H in *; cbn [pheld pk] in * end;
+  cbn; intros; rewrite ?cnt_last_cons, ?pheld_pnotify, ?pk_pnotify, ?psn_pnotify in *; cbn [b2n is_last pheld pk psn] in *; hyps;
+  try match goal with H : prod _ = _ |- _ => rewrite H in *; cbn [pheld pk psn] in * end;
   first [congruence | lia | tauto | (left; split; first [congruence|lia]) | (right; congruence)
         | (right; left; congruence) | (right; right; congruence)
         | intuition (first [congruence|lia]) | idtac].
@@ -81,24 +100,24 @@ Ltac nsfin :=
   try (match goal with H : prod _ = _ |- _ => rewrite H in *; cbn in * end);
   first [discriminate | congruence | constructor; nsclause].
 
-Lemma ns_main_step t s s' : Stp s -> Ctl s -> Ns t s -> main_step s = Some s' -> Ns t s'.
+Lemma ns_main_step h t s s' : Stp s -> Ctl s -> Ns h t s -> main_step s = Some s' -> Ns h t s'.
 Proof.
-  intros St C [A B B' Cc D F G]. pose proof (st_sd _ St) as SD. pose proof (st_new _ St) as SN.
+  intros St C [Hh A B B' Cc D F G]. pose proof (st_sd _ St) as SD. pose proof (st_new _ St) as SN.
   unfold main_step, main_loop, sd_after_workers, finish_prod, spawn. brk2; intros H; inversion H; subst; clear H.
   all: nsfin.
 Qed.
 
-Lemma ns_prod_step t s s' : Stp s -> Ctl s -> Ns t s -> prod_step s = Some s' -> Ns t s'.
+Lemma ns_prod_step h t s s' : Stp s -> Ctl s -> Ns h t s -> prod_step s = Some s' -> Ns h t s'.
 Proof.
-  intros St C [A B B' Cc D F G]. pose proof (st_sd _ St) as SD. pose proof (st_new _ St) as SN.
+  intros St C [Hh A B B' Cc D F G]. pose proof (st_sd _ St) as SD. pose proof (st_new _ St) as SN.
   pose proof (c3 _ C) as C3. pose proof (c6 _ C) as C6.
   unfold prod_step, prod_put, prod_loop, pipeline_stop. brk2; intros H; inversion H; subst; clear H.
   all: nf2; brk2; nsfin.
 Qed.
 
-Lemma ns_worker_step t w s s' : Safe t s -> Qi s -> Ns t s -> worker_step t w s = Some s' -> Ns t s'.
+Lemma ns_worker_step h t w s s' : Safe t s -> Qi s -> Ns h t s -> worker_step t w s = Some s' -> Ns h t s'.
 Proof.
-  intros Sf Q [A B B' Cc D F G]. unfold worker_step.
+  intros Sf Q [Hh A B B' Cc D F G]. unfold worker_step.
   destruct (wpc_at (workers s) w) as [p|] eqn:EA; [|discriminate].
   destruct p as [| | | |i k|i k|i k| |]; try discriminate.
   1-3: unfold worker_get; brk2; intros H; inversion H; subst; clear H; nf2; cbn; nf2; nsfin.
@@ -111,27 +130,28 @@ Proof.
       intros H; inversion H; subst; clear H. constructor; cbn; rewrite ?cnt_last_cons; cbn [is_last b2n End_ Start]; rewrite ?EQ; auto.
     + apply Nat.ltb_ge in T. assert (EQ : (S k =? t) = true) by (apply Nat.eqb_eq; lia).
       unfold worker_get; brk2; intros H; inversion H; subst; clear H; nf2; cbn in *; nf2;
-        (constructor; cbn; rewrite ?cnt_last_cons, ?pheld_pnotify, ?pk_pnotify; cbn [is_last b2n End_ Start]; rewrite ?EQ; cbn [b2n];
+        (constructor; cbn; rewrite ?cnt_last_cons, ?pheld_pnotify, ?pk_pnotify, ?psn_pnotify; cbn [is_last b2n End_ Start]; rewrite ?EQ; cbn [b2n];
          try tauto; try congruence; try lia; try (intuition (first [congruence|lia]))).
   - intros H; inversion H; subst; clear H. constructor; cbn; auto.
 Qed.
 
-Lemma ns_env_step t s l s' :
-  internal l = false -> l <> E_stop -> Stp s -> Ns t s -> step t s l = Some s' -> Ns t s'.
+Lemma ns_env_step h t s l s' :
+  internal l = false -> l <> E_stop -> (h = true -> l = E_src_none -> src_left s = 0) ->
+  Stp s -> Ns h t s -> step t s l = Some s' -> Ns h t s'.
 Proof.
-  intros IL NS St [A B B' Cc D F G]. pose proof (st_new _ St) as SN.
+  intros IL NS HO St [Hh A B B' Cc D F G]. pose proof (st_new _ St) as SN.
   destruct l; try discriminate IL; try (now elim NS); cbn [step]; unfold set_concurrency;
     brk2; intros H; inversion H; subst; clear H.
   all: nf2; brk2; cbn; nf2; brk2; nsfin.
 Qed.
 
-Lemma ns_init t n c : Ns t (init n c).
-Proof. constructor; cbn; auto; try discriminate; intros; congruence. Qed.
+Lemma ns_init h t n c : Ns h t (init n c).
+Proof. constructor; cbn; auto; try discriminate; try (intros ? [?|?]; discriminate); intros; congruence. Qed.
 
-Theorem ns_reachable t n c s : reachable_ns t n c s -> Ns t s.
+Theorem ns_reachable h t n c s : reachable_ns h t n c s -> Ns h t s.
 Proof.
-  induction 1 as [|s l s' R IH NS H]; [apply ns_init|].
-  pose proof (reachable_ns_reachable _ _ _ _ R) as R'.
+  induction 1 as [|s l s' R IH NS HO H]; [apply ns_init|].
+  pose proof (reachable_ns_reachable _ _ _ _ _ R) as R'.
   pose proof (safe_reachable _ _ _ _ R') as Sf. pose proof (stp_reachable _ _ _ _ R') as St.
   pose proof (qi_reachable _ _ _ _ R') as Q. pose proof (ctl_reachable _ _ _ _ R') as C.
   destruct (internal l) eqn:IL.
@@ -139,7 +159,7 @@ Proof.
     + eapply ns_main_step; eauto.
     + eapply ns_prod_step; eauto.
     + eapply ns_worker_step; eauto.
-  - apply (ns_env_step t s l s'); assumption.
+  - apply (ns_env_step h t s l s'); assumption.
 Qed.
 
 
@@ -169,17 +189,18 @@ Theorem exactly_once t n c ls s :
   prod s = P_done /\ unfinished s = 0 /\
   forall i k, 1 <= i < next_item s -> k < t -> In (Start i k) (log s) /\ In (End_ i k) (log s).
 Proof.
-  intros Hr NS MR. pose proof (run_reachable_ns _ _ _ _ _ Hr NS) as RN.
-  pose proof (reachable_ns_reachable _ _ _ _ RN) as R.
+  intros Hr NS MR.
+  assert (RN : reachable_ns false t n c s) by (eapply run_reachable_ns; eauto; [constructor|discriminate]).
+  pose proof (reachable_ns_reachable _ _ _ _ _ RN) as R.
   pose proof (safe_reachable _ _ _ _ R) as Sf. pose proof (ctl_reachable _ _ _ _ R) as C.
-  pose proof (ns_reachable _ _ _ _ RN) as N.
-  pose proof (ns_c _ _ N MR) as P2. pose proof (pk_inv (prod s)) as PI. rewrite P2 in PI.
+  pose proof (ns_reachable _ _ _ _ _ RN) as N.
+  pose proof (ns_c _ _ _ N MR) as P2. pose proof (pk_inv (prod s)) as PI. rewrite P2 in PI.
   assert (NR : pstate s <> St_running) by (apply (c6 _ C); now rewrite PI).
   assert (NN : mainpc s <> M_new) by congruence.
-  destruct (ns_a _ _ N NR NN) as [[_ U]|P3]; [|rewrite P2 in P3; discriminate].
+  destruct (ns_a _ _ _ N NR NN) as [[_ U]|P3]; [|rewrite P2 in P3; discriminate].
   split; [exact PI|]. split; [exact U|]. intros i k Hi Hk.
   assert (T0 : 0 < t) by lia.
-  pose proof (ns_d _ _ N T0) as D. rewrite PI, U in D. cbn [pheld] in D.
+  pose proof (ns_d _ _ _ N T0) as D. rewrite PI, U in D. cbn [pheld] in D.
   set (F := filter (is_last t) (log s)) in *. set (L := map item_of F).
   assert (LL : length L = next_item s - 1) by (unfold L; rewrite map_length; unfold cnt_last in D; fold F in D; lia).
   assert (ND : NoDup L).
